@@ -118,8 +118,24 @@ def slope(hs, vals, floor=1e-12):
     return sum((x - mx_) * (y - my) for x, y in zip(xs, ys)) / sum((x - mx_) ** 2 for x in xs)
 
 
+def slope_end_to_end(hs, vals, floor=1e-12):
+    """slope between the coarsest and the finest level above the rounding floor"""
+    pts = [(math.log(h), math.log(v)) for h, v in zip(hs, vals) if v > floor]
+    if len(pts) < 4:
+        return None
+    return (pts[0][1] - pts[-1][1]) / (pts[0][0] - pts[-1][0])
+
+
 def judge(cell, order, hs, path_res, mean_res, ctx, viol, cnt, mx, tag):
     sp, sm = slope(hs, path_res), slope(hs, mean_res)
+    # The mean residual is a signed quantity whose norm is fitted: when its leading term changes sign inside the fitting
+    # window the five-level fit dips (seen in the thorough tier: local slopes 2.7 2.9 3.1 3.4 4.3 2.8 1.1 2.0 2.2 for a
+    # scheme of mean order 2.5 - a zero crossing near h = 2^-8, not a lower-order term). A lower-order term lowers the
+    # slope everywhere, so a deficit is charged only if the slope over the whole range of step sizes confirms it.
+    sm_all = slope_end_to_end(hs, mean_res)
+    if sm is not None and sm_all is not None and sm < order + 1.0 - THRESHOLDS["mean_margin"] <= sm_all - 0.3:
+        cnt["mean_fit_dips_not_confirmed_end_to_end"] = cnt.get("mean_fit_dips_not_confirmed_end_to_end", 0) + 1
+        sm = sm_all
     name = zoo.cell_name(cell)
     if sp is not None:
         cnt["pathwise_slopes"] = cnt.get("pathwise_slopes", 0) + 1
